@@ -24,7 +24,10 @@ func main() {
 	verbose := flag.Bool("v", false, "verbose")
 	dump := flag.String("dump", "", "dump the query of the named obligation")
 	list := flag.Bool("list", false, "list contracts")
+	flag.BoolVar(&noReplay, "noreplay", false, "do not search for failing inputs when an obligation fails (must-fail corpus)")
 	lemmas := flag.Bool("lemmas", false, "prove all spec-level lemmas (debug)")
+	localsOut := flag.String("locals-out", "", "write the baseline table of locals (run on the unchanged tree) and exit")
+	localsIn := flag.String("locals", "/verif/baseline/locals.json", "baseline table of locals (tolerance to renamed locals)")
 	replayFile := flag.String("replayfile", "", "re-run the property's oracle with the hints recorded in this replay file")
 	flag.Parse()
 
@@ -58,6 +61,14 @@ func main() {
 		}
 	}
 	opts := solveOpts{timeoutSec: to, workDir: *work, allAgree: *tier == "thorough", keep: *keep, par: 16}
+	if *localsOut != "" {
+		if err := eng.writeBaselineLocals(*localsOut); err != nil {
+			fmt.Fprintln(os.Stderr, "govc:", err)
+			os.Exit(2)
+		}
+		return
+	}
+	loadBaselineLocals(*localsIn)
 	if *replayFile != "" {
 		os.Exit(replayOnly(eng, *prop, *replayFile))
 	}
